@@ -1,9 +1,18 @@
 """helpers for the per-property job lists"""
+import importlib
 from fvverif.runner import obligations_of
 
 
 def jobs_for(prop, modules, tier, quick_skip=()):
     jobs = obligations_of(modules, prop)
     if tier == 'quick':
-        jobs = [j for j in jobs if (j[1], j[2]) not in quick_skip and j[1] not in quick_skip]
+        keep = []
+        for j in jobs:
+            cls = getattr(importlib.import_module(j[0]), j[1])
+            if getattr(cls, 'quick', True) is False:
+                continue
+            if (j[1], j[2]) in quick_skip or j[1] in quick_skip:
+                continue
+            keep.append(j)
+        jobs = keep
     return jobs
